@@ -12,7 +12,7 @@ theorem TInv.of {p p' : P} (h : TInv p) (hle : GB.le p.gb p'.gb) (hl : LibsInv p
     (hsub : ∀ c, c < p'.cats.length → 0 < subCount p'.cats c)
     (hsc : ∀ sc ∈ p'.schemas, sc.cat < p'.cats.length) (hst : MapBelow p'.staticTypes p'.schemas.length)
     (hmaps : ∀ pr ∈ p'.processes, ∀ m ∈ pr.maps, m.lib < p'.libs.all.length)
-    (hcnt : ∀ c ∈ p'.counters, c.process < p'.processes.length)
+    (hcnt : ∀ c ∈ p'.counters, ∃ pr, p'.processes[c.process]? = some pr ∧ pr.pid = c.pid)
     (hvis : AllBelow p'.visible p'.threads.length) (hsel : AllBelow p'.selected p'.threads.length) : TInv p' :=
   ⟨hl, hg, fun t ht => (hth t ht).elim (fun ho => (h.threads t ho).mono hle) id, hsub,
    Nat.lt_of_lt_of_le h.catsPos hle.2.2.1, hsc, hst, hmaps, hcnt, hvis, hsel⟩
@@ -373,8 +373,8 @@ theorem step_TInv (p : P) (h : TInv p) (op : Op) (hv : handlesValid p op = true)
       · exact h.maps pr hpr m hm
       · cases hm
     · intro c hc
-      simp only [List.length_append, List.length_cons, List.length_nil]
-      exact Nat.lt_succ_of_lt (h.counters c hc)
+      obtain ⟨pr, hpr, hpid⟩ := h.counters c hc
+      exact ⟨pr, by rw [List.getElem?_append_left (List.getElem?_eq_some_iff.mp hpr).1]; exact hpr, hpid⟩
   | addThread proc tid start main =>
     simp only [handlesValid, decide_eq_true_eq] at hv
     simp only [step, List.getElem?_eq_getElem hv]
@@ -388,9 +388,7 @@ theorem step_TInv (p : P) (h : TInv p) (op : Op) (hv : handlesValid p op = true)
       rcases List.mem_or_eq_of_mem_set hpr with hpr | rfl
       · exact h.maps pr hpr m hm
       · exact h.maps _ (List.getElem_mem hv) m hm
-    · intro c hc
-      simp only [List.length_set]
-      exact h.counters c hc
+    · exact counters_set h.counters (List.getElem?_eq_getElem hv) rfl
     · intro x hx
       simp only [List.length_append, List.length_cons, List.length_nil]
       exact Nat.lt_succ_of_lt (h.visible x hx)
@@ -427,7 +425,7 @@ theorem step_TInv (p : P) (h : TInv p) (op : Op) (hv : handlesValid p op = true)
       rcases List.mem_or_eq_of_mem_set hpr with hpr | rfl
       · exact h.maps pr hpr m hm
       · exact h.maps _ (List.getElem_mem hv) m hm
-    · intro c hc; simp only [List.length_set]; exact h.counters c hc
+    · exact counters_set h.counters (List.getElem?_eq_getElem hv) rfl
   | setPStart pi start =>
     simp only [handlesValid, decide_eq_true_eq] at hv
     simp only [step, List.getElem?_eq_getElem hv]
@@ -437,7 +435,7 @@ theorem step_TInv (p : P) (h : TInv p) (op : Op) (hv : handlesValid p op = true)
       rcases List.mem_or_eq_of_mem_set hpr with hpr | rfl
       · exact h.maps pr hpr m hm
       · exact h.maps _ (List.getElem_mem hv) m hm
-    · intro c hc; simp only [List.length_set]; exact h.counters c hc
+    · exact counters_set h.counters (List.getElem?_eq_getElem hv) rfl
   | addLib name =>
     simp only [step]
     have h1 := p.libs.handleFor_spec name h.libs
@@ -461,7 +459,7 @@ theorem step_TInv (p : P) (h : TInv p) (op : Op) (hv : handlesValid p op = true)
         · rcases mappingAdd_libs _ _ _ hm m hmm with rfl | hold
           · exact hv.2
           · exact h.maps _ (List.getElem_mem hv.1) m hold
-      · intro c hc; simp only [List.length_set]; exact h.counters c hc
+      · exact counters_set h.counters (List.getElem?_eq_getElem hv.1) rfl
   | string s =>
     simp only [step]
     have h1 := p.gstrings.indexFor_spec s h.gstr
@@ -581,7 +579,7 @@ theorem step_TInv (p : P) (h : TInv p) (op : Op) (hv : handlesValid p op = true)
     simp only [List.mem_append, List.mem_singleton] at hc
     rcases hc with hc | rfl
     · exact h.counters c hc
-    · exact hv
+    · exact ⟨_, List.getElem?_eq_getElem hv, rfl⟩
   | counterSample c =>
     simp only [handlesValid, decide_eq_true_eq] at hv
     simp only [step, List.getElem?_eq_getElem hv]
